@@ -187,6 +187,9 @@ type Ctx struct {
 	Known    map[string]KnownFinding // open findings of this property, by id
 	Workdir  string
 	Replay   string // path of a replay file, or ""
+	// Scope, when set, says which oracles / correspondences speak about THIS property: a composed leg (system, assembly) run under a
+	// property's check observes many properties at once; what is out of scope is counted in the histogram and noted, not reported
+	Scope    func(name string) bool
 	mu       sync.Mutex
 	distinct map[[20]byte]struct{}
 	start    time.Time
@@ -272,7 +275,25 @@ func (c *Ctx) Note(format string, a ...interface{}) {
 	c.mu.Unlock()
 }
 
+// InScope: does a failure of this oracle / correspondence count for the property being checked?
+func (c *Ctx) InScope(name string) bool {
+	if c.Scope == nil || c.Scope(name) {
+		return true
+	}
+	c.mu.Lock()
+	c.Res.Hist["other-property:"+name]++
+	first := c.Res.Hist["other-property:"+name] == 1
+	c.mu.Unlock()
+	if first {
+		c.Note("a composed leg saw %q fail; it speaks about another property and is reported by that property's check", name)
+	}
+	return false
+}
+
 func (c *Ctx) Diverge(corr string, cas []string, impl, model string) {
+	if !c.InScope(corr) {
+		return
+	}
 	c.mu.Lock()
 	c.Res.Hist["divergence:"+corr]++
 	if len(c.Res.Divergences) < c.maxKeep {
@@ -284,6 +305,9 @@ func (c *Ctx) Diverge(corr string, cas []string, impl, model string) {
 // Fail records a property failure observed on the implementation.  known = id of an open finding whose
 // predicate the witness satisfies ("" if none).
 func (c *Ctx) Fail(oracle string, cas []string, detail, known string) {
+	if !c.InScope(oracle) {
+		return
+	}
 	c.mu.Lock()
 	if known != "" {
 		if _, open := c.Known[known]; !open {
